@@ -288,7 +288,7 @@ func c19Judge(stmts []string) (sig, detail string, skipped bool) {
 			for k, v := range ops {
 				want[k] = v.Abbrev()
 			}
-			if marked.Operands != strings.Join(want, ", ") {
+			if strings.TrimRight(marked.Operands, " ") != strings.TrimRight(strings.Join(want, ", "), " ") { // the report parser drops trailing blanks (an empty string as last operand)
 				return "report-operands:" + marked.Mnemonic, fmt.Sprintf("%s: the failing %s saw the values [%s], the report lists [%s]", where, marked.Mnemonic, strings.Join(want, ", "), marked.Operands), false
 			}
 			// backtrace: failing context first, then every context it was forked from
@@ -507,6 +507,33 @@ func c19Run(w *core.W) {
 		})
 		if !ok {
 			return
+		}
+	}
+	// how operand and parameter values are shown: values whose text is just below, at and just above the 20 characters
+	// a report shows, of every kind (strings, arrays of 0..12 short elements incl. empty strings and nested arrays,
+	// ints, floats, functions), as the operand of a failing operation and as the argument of the failing call
+	w.Family("value rendering")
+	{
+		vals := []string{"\"\"", "[]", "[[]]", "[\"\"]", "id", "1.5", "123456789012345678", "0 - 1234567890123456789", "1234567890.12345", "aton(\"NaN\")", "true"}
+		for n := 15; n <= 24; n++ {
+			vals = append(vals, "\""+strings.Repeat("s", n)+"\"")
+		}
+		for n := 1; n <= 12; n++ {
+			for _, el := range []string{"\"\"", "\"a\"", "1", "[]", "[1]", "12", "1.5"} {
+				vals = append(vals, "["+strings.TrimSuffix(strings.Repeat(el+", ", n), ", ")+"]")
+			}
+			vals = append(vals, "[\"\", "+strings.TrimSuffix(strings.Repeat("\"a\", ", n), ", ")+"]")
+		}
+		for _, v := range vals {
+			for _, fail := range []string{"p - true", "true - p", "[1][p]", "(0 + 1) * 1 - p", "p - (0 + true)", "p()"} {
+				if fail == "p()" && v == "id" {
+					continue
+				}
+				if !emit([]string{"id = (x) -> x", "f = (p, q) -> " + fail, "f(" + v + ", " + v + ")"}) ||
+					!emit([]string{"id = (x) -> x", "p = " + v, fail}) {
+					return
+				}
+			}
 		}
 	}
 	w.Family("inside built-ins")
